@@ -372,12 +372,28 @@ def r3(ctx):
         aw = all(is_awaited(c) for c in calls if isinstance(c, ast.Call))
         ctx.ob("R3", f"_recover performs `{label}` (awaited)", bool(ids) and aw, func=f, node=(calls[0] if calls else f.node),
                instance=f"stage:{label}", message=f"_recover has no (awaited) `{label}` stage")
-    present = [(l, i) for l, i, _ in stages if i]
-    for (la, ia), (lb, ib) in zip(present, present[1:]):
-        bad = [b for b in ib if not g.dominates(ia, b)]
-        wit = g.describe(g.path(g.entry, bad[:1], avoid=ia) or []) if bad else []
+    present = [(l, i, cs) for l, i, cs in stages if i]
+
+    def loops_of(calls):
+        return {id(a): a for c in calls for a in ancestors(c) if isinstance(a, (ast.For, ast.AsyncFor, ast.While))}
+
+    for (la, ia, ca), (lb, ib, cb) in zip(present, present[1:]):
+        # a stage performed in a loop (possibly zero iterations) is represented by the loop head
+        heads = [i for k, lp in loops_of(ca).items() if k not in loops_of(cb) for i in g.ids_of(lp.test if isinstance(lp, ast.While) else lp)]
+        dom = list(ia) + heads
+        bad = [b for b in ib if not g.dominates(dom, b)]
+        wit = g.describe(g.path(g.entry, bad[:1], avoid=dom) or []) if bad else []
+        back = None
+        if not bad:
+            after_b = g.reach(ib)
+            again = [a for a in ia if a in after_b]
+            if again:
+                bad = again
+                back = g.path(ib[0], again[:1]) or g.path(ib[-1], again[:1])
+                wit = g.describe(back or [])
         ctx.ob("R3", f"`{la}` precedes `{lb}` on every path", not bad, func=f, node=g.nodes[(bad or ib)[0]].ast,
-               instance=f"order:{la}<{lb}", message=f"`{lb}` can run before / without `{la}`", witness=wit)
+               instance=f"order:{la}<{lb}",
+               message=(f"`{la}` runs (again) after `{lb}`" if back is not None else f"`{lb}` can run before / without `{la}`"), witness=wit)
     # restore covers every step of the recovery workflow
     restores = [c for l, _, cs in stages if l == "restore" for c in cs]
     wf_exprs = []
@@ -667,7 +683,7 @@ VARIANTS = [
     V("LoopCombinator.restore is a no-op", COMB_FILE, "streamflow.workflow.combinator.LoopCombinator.restore",
       "self.iteration_map[prefix] = max(self.iteration_map.get(prefix, iteration_num), iteration_num)", "pass", "R4"),
     # ---- benign
-    V("rename the recovery workflow local", FM_FILE, _REC, "new_workflow", "recovery_wf", None, count=11),
+    V("rename the recovery workflow local", FM_FILE, _REC, "new_workflow", "recovery_wf", None, count=9),
     V("executor built through a temporary", FM_FILE, _REC, "executor = StreamFlowExecutor(new_workflow)", "wf = new_workflow\n    executor = StreamFlowExecutor(wf)", None),
     V("rename the wrapper and add logging", REC_FILE, DECORATOR, "wrapper", "_recovering", None, count=2),
     V("logging before the wrapped call", REC_FILE, DECORATOR, "try:\n            await func(*args, **kwargs)", "try:\n            logger.debug('phase start')\n            await func(*args, **kwargs)", None),
